@@ -111,10 +111,15 @@ class AliasedQuery(Selectable):
         return self.query.get_sql(ctx)
 
     def __eq__(self, other: Any) -> bool:
-        return isinstance(other, AliasedQuery) and self.name == other.name
+        # (two references to one CTE under different aliases are two sources, like two aliases of one table)
+        return (
+            isinstance(other, AliasedQuery)
+            and self.name == other.name
+            and self.alias == other.alias
+        )
 
     def __hash__(self) -> int:
-        return hash(str(self.name))
+        return hash((str(self.name), self.alias))
 
 
 class Cte(AliasedQuery):
